@@ -95,7 +95,7 @@ PROPS["C17"] = {
         {"name": "headers", "pkg": "./c17", "tags": "binary_log verif", "run": "^TestExhaustiveHeaders$", "shards": T(2, 16), "rlimit_as": 12 * GiB, "death_is_violation": True, "timeout": T(600, 3600)},
         {"name": "structured", "pkg": "./c17", "tags": "binary_log verif", "run": "^TestRapidStructured$", "rapid": T(6000, 150000), "shards": T(2, 16), "rlimit_as": 12 * GiB, "death_is_violation": True, "replay": "^TestReplay$"},
         {"name": "mutations", "pkg": "./c17", "tags": "binary_log verif", "run": "^TestRapidMutations$", "rapid": T(4000, 100000), "shards": T(2, 16), "rlimit_as": 12 * GiB, "death_is_violation": True},
-        {"name": "cuts", "pkg": "./c17", "tags": "binary_log verif", "run": "^(TestRapidCutPoints|TestRegress)$", "rapid": T(600, 1500), "shards": T(2, 16), "rlimit_as": 12 * GiB},
+        {"name": "cuts", "pkg": "./c17", "tags": "binary_log verif", "run": "^(TestRapidCutPoints|TestRegress)$", "rapid": T(600, 3000), "shards": T(2, 16), "rlimit_as": 12 * GiB},
         {"name": "fuzz", "pkg": "./c17", "tags": "binary_log verif", "run": "^FuzzDecoder$", "fuzz": "^FuzzDecoder$", "fuzztime": T(0, 240), "thorough_only": True, "rlimit_as": 0, "timeout": T(600, 1200)},
     ],
     "assumptions": ["allocation is measured per call with runtime/metrics as a screen and runtime.ReadMemStats (exact) when the screen exceeds the bound; bound = 64 KiB + 64 x len(input), deliberately loose",
